@@ -12,6 +12,7 @@
    Files are `bytes`; the OS calls are: seek (fails with EINVAL above i64::MAX), read_exact
    (fails with UnexpectedEof), metadata().len().  BLAKE3 is the Section variable H. *)
 From MV Require Import Base.Prelude Model.Footer Model.Header.
+From MV Require Model.Sketch.
 Local Open Scope N_scope.
 
 Definition U64_LIM : N := 2 ^ 64.
@@ -40,6 +41,7 @@ Definition E_FUEL : N := 99.          (* the model's loop ran out of fuel (exclu
 Definition E_WAL_LEN : N := 4.        (* "wal record length invalid" *)
 Definition E_WAL_SUM : N := 5.        (* "wal record checksum mismatch" *)
 Definition E_WAL_ZERO : N := 7.       (* "wal_size must be non-zero" *)
+Definition E_WAL_REGION : N := 8.     (* "wal region extends past end of file" *)
 
 (* file.seek(SeekFrom::Start(pos)); file.read_exact(&mut [0; n]) *)
 Definition seek_ok (pos : N) : bool := pos <=? I64_MAX.
@@ -102,9 +104,14 @@ Section WalChk.
     | x :: r => obind (add_chk acc x) (fun a => sum_chk r a)
     end.
 
-  (* open_internal, read-only flavour (no sentinel write): (pending_bytes, sequence) *)
+  (* open_internal, read-only flavour (no sentinel write): (pending_bytes, sequence, checkpoint_head).
+       if header.wal_size == 0 { return Err(InvalidHeader "wal_size must be non-zero") }
+       let file_len = clone.metadata()?.len();
+       if region_offset.checked_add(region_size).map_or(true, |end| end > file_len)
+          { return Err(InvalidHeader "wal region extends past end of file") }        (since 03a10a9) *)
   Definition wal_open_chk (file : bytes) (offset size ckpt_pos ckpt_seq : N) : outcome (N * N * N) :=
     if size =? 0 then Err E_WAL_ZERO
+    else if (U64_LIM <=? offset + size) || (N.of_nat (length file) <? offset + size) then Err E_WAL_REGION
     else
       obind (scan_chk (S (length file)) file offset size 0) (fun en =>
       let entries := fst en in
@@ -272,9 +279,106 @@ Definition mv2e_decode (b : bytes) : outcome (bytes * bytes * N * bytes) :=
   else Ok (slice b 8 32, slice b 40 12, le_decode (slice b 52 8), slice b 60 4).
 
 (* what open_locked does: read_exact 4 bytes, compare *)
-(* Memvid::search, sketch pre-filter: max_candidates: (params.top_k * 10).max(500) *)
-Definition sketch_max_candidates (top_k : N) : outcome N :=
-  obind (mul_chk top_k 10) (fun p => Ok (N.max p 500)).
+(* ------------------------------------------------------------------ sizing arithmetic of search (since 9b4da04, 51f7ee1) *)
+Definition USIZE_LAST : N := U64_LIM - 1.
+(* sketch pre-filter: max_candidates: params.top_k.saturating_mul(10).max(500) *)
+Definition sketch_max_candidates (top_k : N) : N := N.max (sat_mul top_k 10) 500.
+(* let base_docs = request.top_k.max(1).saturating_add(offset_hint);
+   let mut doc_limit = base_docs.saturating_mul(4).max(20);
+   if let Some(filter) = candidate_filter { doc_limit = doc_limit.min(filter.len().max(1)) } *)
+Definition search_doc_limit (top_k hint : N) (flt : option N) : N :=
+  let base := sat_add (N.max top_k 1) hint in
+  let l := N.max (sat_mul base 4) 20 in
+  match flt with Some f => N.min l (N.max f 1) | None => l end.
+(* engine.rs: let doc_limit = limit.min(index_docs).max(1); TopDocs::with_limit(doc_limit)
+   (Tantivy allocates 2 * doc_limit entries up front and panics on a limit of 0) *)
+Definition collector_limit (limit index_docs : N) : N := N.max (N.min limit index_docs) 1.
+(* let age_seconds = max_ts.saturating_sub(timestamp).max(0)   on i64 *)
+Definition sat_sub_i64 (a b : Z) : Z := Z.max (- 2 ^ 63) (Z.min (a - b) (2 ^ 63 - 1)).
+Definition recency_age (max_ts ts : Z) : Z := Z.max (sat_sub_i64 max_ts ts) 0.
+
+(* ------------------------------------------------------------------ time index read_track (since b6c8721) *)
+(* restated here against local definitions (the byte layout is C30's Model/TimeIndex.v):
+   magic "MVTI", u64 count, count * (i64 timestamp, u64 frame id).  The allocator is an oracle:
+   try_reserve_exact answers Err for more than isize::MAX bytes and whenever the allocator refuses. *)
+Definition TI_MAGIC : bytes := [77; 86; 84; 73].
+Definition E_TI_MAGIC : N := 1.
+Definition E_TI_SHORT : N := 2.
+Definition E_TI_OVERFLOW : N := 3.   (* "entry count overflow": checked_mul / usize::try_from *)
+Definition E_TI_LENGTH : N := 4.
+Definition E_TI_UNSORTED : N := 5.
+Definition E_TI_TOO_LARGE : N := 6.  (* "entry count too large": try_reserve_exact failed *)
+Definition ti_i64 (u : N) : Z := if u <? 2 ^ 63 then Z.of_N u else (Z.of_N u - 2 ^ 64)%Z.
+
+Fixpoint ti_read_entries (fuel : nat) (bs : bytes) (count : N) (prev : option (Z * N)) : outcome (list (Z * N)) :=
+  if count =? 0 then Ok []
+  else match fuel with
+       | O => Err E_IO
+       | S f =>
+           let chunk := firstn 16 bs in
+           if negb (Nat.eqb (length chunk) 16) then Err E_IO
+           else
+             let e := (ti_i64 (le_decode (firstn 8 chunk)), le_decode (skipn 8 chunk)) in
+             let bad := match prev with
+                        | Some p => (fst e <? fst p)%Z || ((fst e =? fst p)%Z && (snd e <? snd p))
+                        | None => false
+                        end in
+             if bad then Err E_TI_UNSORTED
+             else match ti_read_entries f (skipn 16 bs) (count - 1) (Some e) with
+                  | Ok l => Ok (e :: l)
+                  | Err k => Err k
+                  | Panic s => Panic s
+                  end
+       end.
+
+Section TimeIndexRead.
+  Variable alloc_ok : N -> bool.      (* does the allocator grant this many bytes? *)
+
+  Definition ti_read_track (file : bytes) (offset : nat) (length_arg : N) : outcome (list (Z * N)) :=
+    let avail := skipn offset file in
+    if Nat.ltb (length avail) 4 then Err E_IO
+    else if negb (bytes_eqb (firstn 4 avail) TI_MAGIC) then Err E_TI_MAGIC
+    else if Nat.ltb (length avail) 12 then Err E_IO
+    else
+      let count := le_decode (slice avail 4 8) in
+      if length_arg <? 12 then Err E_TI_SHORT
+      else
+        let payload_bytes := length_arg - 12 in
+        if U64_LIM <=? count * 16 then Err E_TI_OVERFLOW                      (* checked_mul *)
+        else if negb (payload_bytes =? count * 16) then Err E_TI_LENGTH
+        else if U64_LIM <=? count then Err E_TI_OVERFLOW                      (* usize::try_from *)
+        else if (2 ^ 63 <=? count * 16) || negb (alloc_ok (count * 16)) then Err E_TI_TOO_LARGE   (* try_reserve_exact *)
+        else ti_read_entries (length avail) (skipn 12 avail) count None.
+End TimeIndexRead.
+
+(* ------------------------------------------------------------------ read_sketch_track (since bc37f0b) *)
+(* the header layout, entry parsing and the entry loop are C39's Model/Sketch.v (definitions only);
+   restated here is the function body with the repaired length computation:
+     header.entry_count.checked_mul(entry_size).and_then(|e| e.checked_add(SIZE)).ok_or(InvalidSketchTrack ..)? *)
+Definition E_SK_OVERFLOW : N := 6.    (* "Sketch track entry count .. overflows" *)
+Definition read_sketch_track (file : bytes) (offset len : N) : outcome Sketch.track :=
+  if N.of_nat (length file) <? offset then Err Sketch.ERR_IO else
+  let r := skipn (N.to_nat offset) file in
+  if Nat.ltb (length r) Sketch.SKETCH_HEADER_SIZE then Err Sketch.ERR_IO else
+  let hb := firstn Sketch.SKETCH_HEADER_SIZE r in
+  if negb (bytes_eqb (slice hb 0 4) Sketch.SKETCH_TRACK_MAGIC) then Err Sketch.ERR_MAGIC else
+  let esz := Sketch.u16_at hb 6 in
+  let count := Sketch.u64_at hb 8 in
+  match Sketch.variant_of_size esz with
+  | None => Err Sketch.ERR_ENTRY_SIZE
+  | Some v =>
+      let prod := count * esz in
+      if U64_LIM <=? prod then Err E_SK_OVERFLOW else                                   (* checked_mul *)
+      if U64_LIM <=? prod + N.of_nat Sketch.SKETCH_HEADER_SIZE then Err E_SK_OVERFLOW else  (* checked_add *)
+      if len <? prod + N.of_nat Sketch.SKETCH_HEADER_SIZE then Err Sketch.ERR_LENGTH else
+      let rest := skipn Sketch.SKETCH_HEADER_SIZE r in
+      if N.of_nat (length rest) / N.of_nat (Sketch.entry_size v) <? count then Err Sketch.ERR_IO else
+      match Sketch.read_entries v (N.to_nat count) 0 rest [] with
+      | Ok es => Ok (Sketch.mkTrack v es)
+      | Err k => Err k
+      | Panic s => Panic s
+      end
+  end.
 
 Definition sniff_mv2e (file : bytes) : bool :=
   match read_at file 0 4 with Some m => bytes_eqb m MV2E_MAGIC | None => false end.
